@@ -65,7 +65,7 @@ Proof.
   unfold class_of_pairs. f_equal. induction ps as [|[k e] r IH]; cbn; [reflexivity|].
   unfold pair_value at 1. destruct e as [v|p]; cbn [eval_vexpr snd fst].
   - destruct (truthy v); cbn; now rewrite IH.
-  - destruct (truthy match resolve s p with Some v => v | None => VNil end); cbn; now rewrite IH.
+  - destruct (if expr_plain p then expr_path s p else resolve s p) as [v|]; [destruct (truthy v)|]; cbn; now rewrite IH.
 Qed.
 
 (* 4. style: a later declaration overrides the same-named earlier one in place and keeps the others *)
@@ -148,4 +148,41 @@ Theorem bracket_literal_refuted : exists s k v, is_bracketed k = true /\ element
 Proof.
   exists {| scopes := [[(bs "s", VStr (bs "val"))]]; root := VNil |}, (bs "[title]"), (bs "{{ s }}").
   split; [reflexivity|]. vm_compute. discriminate.
+Qed.
+
+(* ---- style keys: camelToKebab ---- *)
+(* a key without capital letters is written unchanged; a capital letter other than the first becomes a hyphen and
+   its lower-case letter; the first letter is kept as it is; nothing else is added or removed *)
+Definition no_upper (s : bytes) : bool := forallb (fun c => negb (is_upper c)) s.
+Lemma kebab_lowercase_unchanged s : forall first, no_upper s = true -> camel_to_kebab first s = s.
+Proof.
+  induction s as [|c r IH]; intros first H; [reflexivity|]. cbn [no_upper forallb] in H.
+  apply andb_true_iff in H. destruct H as [Hc Hr]. apply negb_true_iff in Hc.
+  cbn [camel_to_kebab]. rewrite Hc. cbn [andb app]. f_equal. now apply IH.
+Qed.
+Lemma to_lower_not_upper c : is_upper c = true -> is_upper (to_lower c) = false.
+Proof.
+  unfold is_upper, to_lower. intro H. apply andb_true_iff in H. destruct H as [H1 H2].
+  apply N.leb_le in H1. apply N.leb_le in H2.
+  destruct (Byte.of_N (bN c + 32)) as [b|] eqn:E.
+  - assert (Hb : bN b = (bN c + 32)%N) by (unfold bN; now apply Byte.to_of_N).
+    rewrite Hb. apply andb_false_iff. right. apply N.leb_gt. lia.
+  - exfalso. pose proof (Byte.of_N_None_iff (bN c + 32)) as Hn. apply Hn in E. lia.
+Qed.
+Lemma kebab_tail_no_upper s : no_upper (camel_to_kebab false s) = true.
+Proof.
+  induction s as [|c r IH]; [reflexivity|]. cbn [camel_to_kebab negb andb]. rewrite andb_true_r.
+  unfold no_upper in *. rewrite forallb_app, IH, andb_true_r.
+  destruct (is_upper c) eqn:E; cbn [forallb].
+  - rewrite (to_lower_not_upper c E). reflexivity.
+  - now rewrite E.
+Qed.
+Theorem kebab_only_first_capital_survives c r : camel_to_kebab true (c :: r) = c :: camel_to_kebab false r /\ no_upper (camel_to_kebab false r) = true.
+Proof. split; [cbn [camel_to_kebab negb andb]; now rewrite andb_false_r|apply kebab_tail_no_upper]. Qed.
+Fixpoint count_upper (s : bytes) : nat := match s with [] => 0 | c :: r => (if is_upper c then 1 else 0) + count_upper r end.
+Theorem kebab_length s : forall first, length (camel_to_kebab first s) = length s + count_upper s - (if first then match s with c :: _ => if is_upper c then 1 else 0 | [] => 0 end else 0).
+Proof.
+  induction s as [|c r IH]; intro first; [destruct first; reflexivity|].
+  cbn [camel_to_kebab]. rewrite app_length, (IH false). cbn [length count_upper].
+  destruct (is_upper c), first; cbn [andb negb length]; lia.
 Qed.
